@@ -164,11 +164,11 @@ def run(chk):
                     ctor_sites += 1
                 if isinstance(n.func, _ast.Attribute) and n.func.attr == "copy":
                     copy_sites += 1
-                if d in ("setattr", "exec", "eval", "delattr", "globals", "locals", "vars", "__import__"):
+                if d in ("exec", "eval", "globals", "locals", "vars", "__import__"):  # setattr / delattr are attribute stores in the effect analysis
                     reflection.append((rel, n.lineno, d))
             if isinstance(n, _ast.Attribute) and n.attr == "__dict__":
                 reflection.append((rel, n.lineno, "__dict__"))
-    chk.ob("C19.no-reflection", "package::setattr/exec/eval/__dict__", not reflection, fact={"sites": reflection}, expect="none (soundness assumption of the effect analysis)")
+    chk.ob("C19.no-reflection", "package::exec/eval/vars/__dict__", not reflection, fact={"sites": reflection}, expect="none (soundness assumption of the effect analysis)")
     chk.floor("Circuit(...) construction sites seen", ctor_sites, 10)
     chk.floor(".copy() sites seen", copy_sites, 8)
     chk.floor("call sites visited", an.call_sites, 400)
